@@ -737,3 +737,145 @@ theorem deliverL_fine (p q : PS) (f : Frame) (rest : List Msg) (hba : p.ba = .fr
     wiresOf_nil, List.nil_append, List.append_nil, List.append_assoc]
 
 end Penguin.Pair
+
+namespace Penguin.Pair
+open Penguin.Mux
+
+/-- The side conditions of `stimL_fine` / `deliverL_fine`, as a decidable check on the endpoint after
+    the application call (or before the delivery): nothing unread, running, no notification for the
+    reserved id 0, the sink takes everything. -/
+def idleB (e : EP) : Bool :=
+  e.inbox.isEmpty && !e.dead && e.draining.isNone && e.closing.isNone && e.muxAlive && !e.droppedq.contains 0 &&
+  e.sinkRoom.isNone
+
+theorem idleB_spec {e : EP} (h : idleB e = true) : Idle e ∧ e.sinkRoom = none := by
+  simp only [idleB, Bool.and_eq_true, List.isEmpty_iff, Bool.not_eq_true', Option.isNone_iff_eq_none,
+    List.contains_eq_mem, decide_eq_false_iff_not] at h
+  obtain ⟨⟨⟨⟨⟨⟨h1, h2⟩, h3⟩, h4⟩, h5⟩, h6⟩, h7⟩ := h
+  exact ⟨⟨h1, h2, h3, h4, h5, by simpa using h6⟩, h7⟩
+
+/-- One harness stimulus at the left endpoint, with its side conditions checked (`none` = a side
+    condition fails: the stimulus is outside the fragment the pair model covers). -/
+def stimStepL (p : PS) : Stim → Option PS
+  | .call op =>
+    match actOf op with
+    | none => none
+    | some a =>
+      if (stepL p a).isSome && idleB (opStep p.a op).1 && !(applyOp p.a op).1.rng.isEmpty then some (stimL p op) else none
+  | .deliver =>
+    match p.ba with
+    | .frame f :: _ =>
+      if idleB p.a && !p.a.srcEnded && (unpark p.a).park.isNone && (processFrame (unpark p.a) f false).2.2.isNone &&
+         !(processFrame (unpark p.a) f false).1.droppedq.contains 0 then
+        match deliverL p with
+        | some q => if q.a.rng.isEmpty then none else some q
+        | none => none
+      else none
+    | _ => none
+
+def stimStep (p : PS) (s : Side) (st : Stim) : Option PS :=
+  match s with
+  | .A => stimStepL p st
+  | .B => (stimStepL p.swap st).map PS.swap
+
+/-- A harness-level history: a list of stimuli, each of which satisfies its side conditions. -/
+def stimRun (p : PS) : List (Side × Stim) → Option PS
+  | [] => some p
+  | (s, st) :: rest => (stimStep p s st).bind (fun q => stimRun q rest)
+
+/-- One checked stimulus is a fine-grained run of the same side. -/
+theorem stimStepL_fine (p q : PS) (st : Stim) (h : stimStepL p st = some q) : ∃ acts, runL p acts = some q := by
+  cases st with
+  | call op =>
+    simp only [stimStepL] at h
+    cases ha : actOf op with
+    | none => rw [ha] at h; cases h
+    | some a =>
+      rw [ha] at h
+      simp only at h
+      split at h
+      · rename_i hc
+        cases h
+        simp only [Bool.and_eq_true, Bool.not_eq_true'] at hc
+        obtain ⟨⟨h1, h2⟩, h3⟩ := hc
+        obtain ⟨hi, hs⟩ := idleB_spec h2
+        obtain ⟨acts, hacts⟩ := stimL_fine p op a ha h1 hi hs (by intro hh; rw [hh] at h3; cases h3)
+        exact ⟨_, hacts⟩
+      · cases h
+  | deliver =>
+    simp only [stimStepL] at h
+    split at h
+    · rename_i f rest hba
+      split at h
+      · rename_i hc
+        simp only [Bool.and_eq_true, Bool.not_eq_true', Option.isNone_iff_eq_none, List.contains_eq_mem,
+          decide_eq_false_iff_not] at hc
+        obtain ⟨⟨⟨⟨h1, h2⟩, h3⟩, h4⟩, h5⟩ := hc
+        obtain ⟨hi, hs⟩ := idleB_spec h1
+        cases hd : deliverL p with
+        | none => rw [hd] at h; cases h
+        | some q' =>
+          rw [hd] at h
+          simp only at h
+          split at h
+          · cases h
+          · rename_i hr
+            cases h
+            obtain ⟨acts, hacts⟩ := deliverL_fine p q f rest hba hd hi h2 h3 h4 (by simpa using h5) hs
+              (by intro hh; apply hr; rw [hh]; rfl)
+            exact ⟨_, hacts⟩
+      · cases h
+    · cases h
+
+theorem run_swap (p : PS) (l : List Act) : run p.swap (l.map (fun a => (Side.A, a))) = (run p (l.map (fun a => (Side.B, a)))).swap := by
+  induction l generalizing p with
+  | nil => rfl
+  | cons a rest ih =>
+    simp only [List.map_cons, run, step]
+    cases hs : stepL p.swap a with
+    | none => simp only [Option.map_none, Option.getD_none]; exact ih p
+    | some q =>
+      simp only [Option.map_some, Option.getD_some]
+      have := ih q.swap
+      rw [swap_swap'] at this
+      exact this
+where swap_swap' {q : PS} : q.swap.swap = q := rfl
+
+theorem run_append (p : PS) (l1 l2 : List (Side × Act)) : run p (l1 ++ l2) = run (run p l1) l2 := by
+  induction l1 generalizing p with
+  | nil => rfl
+  | cons x xs ih => obtain ⟨s, a⟩ := x; simp only [List.cons_append, run]; exact ih _
+
+/-- **Every harness-level history is a fine-grained run of the pair model.** -/
+theorem stimRun_is_run (p q : PS) (l : List (Side × Stim)) (h : stimRun p l = some q) :
+    ∃ as : List (Side × Act), run p as = q := by
+  induction l generalizing p with
+  | nil => simp only [stimRun, Option.some.injEq] at h; exact ⟨[], by rw [← h]; rfl⟩
+  | cons x rest ih =>
+    obtain ⟨s, st⟩ := x
+    simp only [stimRun] at h
+    cases hs : stimStep p s st with
+    | none => rw [hs] at h; cases h
+    | some p1 =>
+      rw [hs] at h
+      simp only [Option.bind_some] at h
+      obtain ⟨as2, h2⟩ := ih p1 h
+      cases s with
+      | A =>
+        obtain ⟨acts, hacts⟩ := stimStepL_fine p p1 st hs
+        refine ⟨acts.map (fun a => (Side.A, a)) ++ as2, ?_⟩
+        rw [run_append, run_of_runL p p1 acts hacts]; exact h2
+      | B =>
+        simp only [stimStep, Option.map_eq_some_iff] at hs
+        obtain ⟨q1, hq1, rfl⟩ := hs
+        obtain ⟨acts, hacts⟩ := stimStepL_fine p.swap q1 st hq1
+        refine ⟨acts.map (fun a => (Side.B, a)) ++ as2, ?_⟩
+        have h3 := run_of_runL p.swap q1 acts hacts
+        rw [run_swap] at h3
+        rw [run_append]
+        have : run p (acts.map (fun a => (Side.B, a))) = q1.swap := by
+          have := congrArg PS.swap h3
+          exact this
+        rw [this]; exact h2
+
+end Penguin.Pair
